@@ -92,6 +92,7 @@ type Script struct {
 	Base     []ocicheck.Op `json:"base,omitempty"`   // builds an existing layout (AutoSaveIndex on), store then dropped
 	Prefix   []ocicheck.Op `json:"prefix,omitempty"` // run in the crashing process before the marker
 	Target   ocicheck.Op   `json:"target"`
+	neutral  bool
 }
 
 func (s *Script) nodes() []ocicheck.Node {
@@ -183,6 +184,9 @@ func judge(dir string, sc *Script, before, after *snapshot) (*snapshot, []viol) 
 	entryKey := "index-entry-missing-blob:" + tk
 	if tk == "gc" {
 		entryKey = "gc-index-not-saved"
+	}
+	if sc.neutral { // judging the state before the interrupted operation: not its doing
+		entryKey = "index-entry-missing-blob"
 	}
 	for _, p := range rep.Problems {
 		switch p.Key {
@@ -363,7 +367,9 @@ func runCase(phase string, i int) worker.Result {
 	if fmt.Sprint(oc.Prefix) != fmt.Sprint(expect) && !(len(oc.Prefix) == 0 && len(expect) == 0) {
 		return fail("harness:prefix-nondeterministic", fmt.Sprintf("prefix outcomes %v, expected %v", oc.Prefix, expect), nil)
 	}
+	sc.neutral = true
 	before, vs := judge(beforeDir, &sc, nil, nil)
+	sc.neutral = false
 	res.Evals++
 	if len(vs) > 0 {
 		return fail("before-state:"+vs[0].key, "the state before the interrupted operation already fails the oracle: "+vs[0].what, vs)
